@@ -42,7 +42,12 @@ Fixpoint eval_fexp (f : fexp) (ndata : nat) (ins : dict val) : fres :=
       | 0 | 1 => FVal (VTup (VStr id :: args))
       | _ => FVal (VTup (map (fun j => VTup (VStr id :: VInt j :: args)) (seqZ ndata)))
       end
-  | FAdd k => match first_int ins with Some z => FVal (VInt (z + k)) | None => FExc ETypeError end
+  | FAdd k => match first_int ins with
+              | Some z => match ndata with
+                          | 0 | 1 => FVal (VInt (z + k))
+                          | _ => FVal (VTup (map (fun j => VInt (z + k + j)) (seqZ ndata)))
+                          end
+              | None => FExc ETypeError end
   | FConst v => FVal v
   | FRaise e => FExc e
   | FRaiseIfGe thr e f' =>
@@ -149,13 +154,14 @@ Record result := mk_result {
   res_status : nat;                 (* 0 completed, 1 failed, 2 paused *)
   res_values : dict val;
   res_err : option err;
-  res_log : list (list call) }.
+  res_log : list (list call);
+  res_state : state }.
 
 Definition package (g : graph) (sel : option (list name)) (r : rres * list (list call)) : result :=
   match r with
-  | (RDone st, log) => mk_result 0 (filter_outputs g st sel) None log
-  | (RFailed e st, log) => mk_result 1 (filter_outputs g st sel) (Some e) log
-  | (RPaused p st, log) => mk_result 2 (filter_outputs g st sel) None log
+  | (RDone st, log) => mk_result 0 (filter_outputs g st sel) None log st
+  | (RFailed e st, log) => mk_result 1 (filter_outputs g st sel) (Some e) log st
+  | (RPaused p st, log) => mk_result 2 (filter_outputs g st sel) None log st
   end.
 
 Definition run_basic (ftab : dict fexp) (gtab : dict gate_cfg) (r : runner) (fuel : nat)
